@@ -16,28 +16,30 @@ LEAN_TARGETS = ["PpciVerif.Props.C12", "Drivers.C12"]
 LEVEL = "proof"
 LEVEL_TEXT = (
     "Lean theorems about an executable hand model of Linker.link / inject_object / merge_global_symbol / layout_sections / "
-    "check_undefined_symbols / Image.data / get_symbol_id_value, for ALL object lists and layouts (induction over objects, sections, "
-    "symbols and layout inputs, no bounds): every input section's bytes stand unchanged at its recorded offset of the output section, "
-    "recorded offsets are multiples of the piece alignment and the pieces are disjoint and ordered; every defined input symbol and "
-    "every DEFINESYMBOL resolves to final section address + recorded offset + its value; Image.data returns bytes exactly on ascending "
-    "non-overlapping section lists and then restricts to each section. Under the explicit hypothesis that the layout places every "
-    "section at most once: every placed section has addr % align = 0 and lies inside [mem.location, mem.location+mem.size], sections "
-    "of one image are a sorted non-overlapping chain, Image.data of every image succeeds. Piece addresses are aligned when the "
-    "alignments are powers of two (only place where that is needed). PARTIAL (link_fails_iff_partial): for well-formed requests "
-    "(Spec.Link.WF) the link fails iff a global is multiply defined, a global is undefined (non-partial link) or a memory is "
-    "overfull (abstract placement of Spec.Link), always with CompilerError; nothing is proved about failure of ill-formed requests. "
-    "Relocation application/relaxation are not modelled (C10/C11/C13): relocation sites are exempt, records are only rebased.")
+    "check_undefined_symbols / Image.data / get_symbol_id_value, for ALL object lists and ALL layouts (induction over objects, "
+    "sections, symbols and layout inputs; no bounds, no well-formedness hypothesis): every input section's bytes stand unchanged at "
+    "its recorded offset of the output section, recorded offsets are multiples of the piece alignment, pieces are disjoint and ordered; "
+    "every defined input symbol and every DEFINESYMBOL resolves to final section address + recorded offset + value; after layout "
+    "every placed section has addr % align = 0 and lies inside [mem.location, mem.location+mem.size], the sections of an image are "
+    "an ascending non-overlapping chain, Image.data succeeds and restricted to a section equals the section (Image.data in general "
+    "returns bytes exactly on such chains); every successful link places each section once; link_fails_full: a multiply defined "
+    "global, an undefined global (non-partial link) or an overfull memory (abstract (alignment,size) placement of Spec.Link) makes "
+    "EVERY request fail; on well-formed requests these are the only reasons and the error is CompilerError (link_fails_iff); "
+    "two-stage links (a linked object linked again, alone or with more objects) preserve the original contents and symbol values. "
+    "Piece addresses are aligned when alignments are powers of two (the only place that is needed, witness included). Relocation "
+    "application/relaxation are not modelled (C10/C11/C13): relocation sites are exempt, records are only rebased.")
 LEVEL_NOTE = (
     "trusted: Lean kernel; axioms propext/Classical.choice/Quot.sound; the hand model <-> linker.py/objectfile.py correspondence is "
-    "sampled through the real ppci.api.link (not proved); Python dict/identity semantics modelled by name lookup; layout-file parsing, "
-    "debug info, archives, relocation arithmetic not covered; placement theorems assume each section is placed at most once by the layout")
+    "sampled through the real ppci.api.link (not proved); Python dict/identity semantics modelled by name lookup; addresses, sizes, "
+    "alignments, values are naturals in the model (negative memory locations only probed on the real linker); layout-file parsing, "
+    "debug info, archives, relocation arithmetic not covered")
 TECHNIQUE = ("Lean 4 proof by induction over a hand model of the linker + differential correspondence with the real link() "
              "(full structural diff) + property evaluation on every real output")
 RULE = ("cases = fixed corpus + generated requests (1-4 objects over a small pool of section/symbol names, sizes 0..300, alignments "
         "1,2,4,..,64 and non-powers of two and 0, local/global/undefined/duplicate symbols, random symbol ids, relocation records, entry "
         "symbols, extra symbols, partial links and re-links of real partial outputs, layouts with 1-3 memories, SECTION/SECTIONDATA/"
         "DEFINESYMBOL/ALIGN inputs, sections absent from the layout / from the objects, memory sizes need-1/need/need+1, ill-formed "
-        "layouts) + direct Image.data cases. distinct = distinct request; non-trivial = some output section merged from >=2 pieces, or a "
+        "layouts, sections placed twice) + direct Image.data cases + negative-location probe of the real linker. distinct = distinct request; non-trivial = some output section merged from >=2 pieces, or a "
         "layout placing >=2 sections, or an error outcome")
 TRUSTED = [
     "hand model Model.Linker of ppci/binutils/linker.py + objectfile.py (functional update for in-place mutation, name lookup for dicts), tied by differential run through ppci.api.link on every check",
@@ -47,7 +49,7 @@ TRUSTED = [
 ASSUMPTIONS = [
     "addresses, sizes, alignments and symbol values are non-negative integers",
     "relocation application (do_relocations) only writes inside [offset, offset+reloc.size()) of its section",
-    "section names are unique inside one input object and every section is placed at most once by a layout (hypotheses of the placement theorems)",
+    "section names are unique inside one input object (hypothesis of offsets_lookup only)",
 ]
 
 ARCH = "x86_64"
@@ -528,7 +530,7 @@ def check_property(ctx, c, impl, objs, observed, model, spec):
                          c, obj=k, symbol=s["name"], got=got, want=want)
     # ---- layout -----------------------------------------------------------------------------
     lay = c["layout"]
-    if lay is not None and full and wf:
+    if lay is not None and full:
         for j, m in enumerate(lay["memories"]):
             if j >= len(out.images):
                 ctx.fail("layout_sections:image-missing", f"no image for memory {m['name']}", c)
@@ -565,9 +567,8 @@ def check_property(ctx, c, impl, objs, observed, model, spec):
             if in_image and all_pow2 and (osec.address + off) % s["alignment"] != 0:
                 ctx.fail("layout_sections:piece-misaligned",
                          f"piece {s['name']} of object {k} ends up at address {osec.address + off}, alignment {s['alignment']}", c)
-    # sections of one image never overlap (layouts that place every section once; a section named by two
-    # memories keeps its last address while the first image still lists it – outside the property, see notes)
-    for img in (out.images if wf else []):
+    # sections of one image never overlap
+    for img in out.images:
         rs = sorted((s.address, s.address + s.size, s.name) for s in img.sections if s.size)
         for a, b in zip(rs, rs[1:]):
             if b[0] < a[1]:
@@ -708,8 +709,55 @@ def repair_symbols(rng, c):
                         o["symbols"].append(sym(i, r, "global", rng.randint(0, len(s["data"]) // 2), s["name"]))
 
 
+def probe_negative(ctx, n):
+    """Negative memory locations are outside the model (addresses are `Nat`).  The real linker is still
+    probed there: placement property with a Python-only oracle (no model, no Lean spec)."""
+    rng = ctx.rng
+    for k in range(n):
+        secnames = rng.sample(SEC_NAMES, rng.randint(1, 4))
+        objs = [gen_obj(rng, secnames, SYM_NAMES[:4], False, False, True) for _ in range(rng.randint(1, 3))]
+        for o in objs:
+            o["entry"] = None
+        c = case(objs, tag="negative-location")
+        gen_layout(rng, c, secnames, False)
+        shift = rng.choice([1, 7, 64, 4097, 1 << 20])
+        for m in c["layout"]["memories"]:
+            m["location"] = m["location"] - shift - rng.randint(0, 5000)
+        c["layout"]["entry"] = None
+        needs = py_needs(c)
+        for m, need in zip(c["layout"]["memories"], needs):
+            m["size"] = need + rng.choice([0, 0, 1, 50])
+        repair_symbols(rng, c)
+        impl, objs_, observed = run_impl(c)
+        ctx.count("eval_negative_probe")
+        if impl[0] != "ok":
+            ctx.fail("link:spurious-failure-negative-location:" + impl[1],
+                     f"request with negative memory locations and enough room fails with {impl[1]}", c)
+            continue
+        out = impl[1]
+        for j, m in enumerate(c["layout"]["memories"]):
+            img = out.images[j]
+            for s in img.sections:
+                if s.address % s.alignment != 0:
+                    ctx.fail("layout_sections:section-misaligned", f"section {s.name} at {s.address}, alignment {s.alignment}", c)
+                if not (m["location"] <= s.address and s.address + s.size <= m["location"] + m["size"]):
+                    ctx.fail("layout_sections:section-outside-memory", f"section {s.name} outside memory {m['name']}", c)
+            rs = sorted((s.address, s.address + s.size, s.name) for s in img.sections if s.size)
+            for a, b in zip(rs, rs[1:]):
+                if b[0] < a[1]:
+                    ctx.fail("layout_sections:sections-overlap", f"sections {a[2]} and {b[2]} overlap in image {img.name}", c)
+            d = guarded(lambda: bytes(img.data))
+            if isinstance(d, str):
+                ctx.fail("Image.data:raises", f"Image.data of {m['name']} raises {d}", c)
+            else:
+                for s in img.sections:
+                    a = s.address - img.address
+                    if a < 0 or d[a:a + s.size] != bytes(s.data):
+                        ctx.fail("Image.data:section-bytes-differ", f"image {m['name']} restricted to {s.name} differs", c)
+
+
 def al_up(a, al):
-    return a if al == 0 else a + (al - a % al) % al
+    return a if al == 0 else a + (-a) % al
 
 
 def py_needs(c):
@@ -920,6 +968,10 @@ def corpus():
     cs.append(case([d1], layout=[mem("m", 0, 100, [["S", "code"], ["A", 0]])], tag="align-zero"))
     cs.append(case([d1], layout=[mem("m", 0, 100, [["S", "code"], ["S", "code"]])], tag="section-placed-twice"))
     cs.append(case([d1], layout=[mem("m", 0, 100, [["S", "code"]]), mem("n", 0x80, 100, [["S", "code"]])], tag="section-in-two-memories"))
+    cs.append(case([e1], layout=[mem("m", 0, 100, [["S", "code"], ["S", "bss"]]), mem("n", 0x200, 100, [["S", "bss"], ["S", "code"]])],
+                   tag="two-sections-in-two-memories"))
+    cs.append(case([e1], layout=[mem("m", 0, 100, [["S", "bss"], ["A", 16], ["S", "bss"]])], tag="empty-section-placed-twice"))
+    cs.append(case([d1], layout=[mem("m", 0, 100, [["Y", "e"], ["S", "code"], ["S", "_$e_"]])], tag="marker-section-placed-again"))
     cs.append(case([d1], layout=[mem("m", 0, 100, [["Y", "e"], ["Y", "e"]])], tag="definesymbol-twice"))
     cs.append(case([], tag="no-objects"))
     cs.append(case([d1, obj([sec("code", A)], [sym(1, "q", "local", 0, "code")], entry=1)], entry="main", tag="two-entries"))
@@ -1131,6 +1183,7 @@ def check(ctx):
     for i in range(0, len(cases), step):
         run_cases(ctx, cases[i:i + step], impls[i:i + step])
     check_images(ctx, 3000 if ctx.thorough else 300)
+    probe_negative(ctx, 400 if ctx.thorough else 40)
     ctx.extra_cov["exhaustive"] = False
 
 
